@@ -7,6 +7,11 @@ Front end of the pool model.
 * `pool plan <dflt> <top widths> <tok>…` → one word per dispatcher, in build order:
   `top=<pool size>:<v…>` / `<batch tag>=<pool size>:<v…>` with one `c` (completes) or `d`
   (deadlock) per stage of that dispatcher.
+* `pool aplan <script> <dflt> <top widths> <tok>…` → the same for `build_async` and a sequence of
+  calls on the `AsyncDispatcher`: `<script>` has one letter per call — `d` dispatch, `w` wait,
+  `n` wait_without_tl, `o` world, `r` running (job still going), `R` running (job had finished);
+  the word of a dispatcher is `<key>=<pool size>:<v…>/<v…>/…`, one `/`-separated group of stage
+  verdicts per `d` of the script, oldest first.
   Tokens, in call order: `p<k>` = `add_pool` (pool of `k` threads) on the builder being filled,
   `[` = a new builder for a batch, `]<tag>:<widths>` = `add_batch` of the innermost open builder
   (its plan has stages of these widths). Widths are `.`-separated, `-` for none.
@@ -57,6 +62,23 @@ def showDisp (d : Disp) : String :=
   let v := String.ofList (d.widths.map fun n => if poolCompletes d.pool n then 'c' else 'd')
   s!"{k}={d.pool}:{v}"
 
+def parseCall : Char → Option ACall
+  | 'd' => some .dispatch
+  | 'w' => some .wait
+  | 'n' => some .waitWithoutTl
+  | 'o' => some .world
+  | 'r' => some (.running false)
+  | 'R' => some (.running true)
+  | _ => none
+
+def parseScript (s : String) : Option (List ACall) := s.toList.mapM parseCall
+
+def showDispAsync (calls : List ACall) (d : Disp) : String :=
+  let k := match d.tag with | none => "top" | some t => toString t
+  let vs := (d.completesAsync calls).map fun l => String.ofList (l.map fun b => if b then 'c' else 'd')
+  let v := "/".intercalate vs
+  s!"{k}={d.pool}:{v}"
+
 def step (st : St) (ws : List String) : St × String :=
   match ws with
   | [w, n] =>
@@ -72,6 +94,11 @@ def step (st : St) (ws : List String) : St × String :=
     | some dflt, some top, some b =>
       ({ asked := st.asked + 1 }, " ".intercalate ((b.build dflt top).map showDisp))
     | _, _, _ => (st, "bad-op")
+  | "aplan" :: script :: dflt :: top :: toks =>
+    match parseScript script, dflt.toNat?, parseWidths top, parsePB toks with
+    | some calls, some dflt, some top, some b =>
+      ({ asked := st.asked + 1 }, " ".intercalate ((b.build dflt top).map (showDispAsync calls)))
+    | _, _, _, _ => (st, "bad-op")
   | _ => (st, "bad-op")
 
 end Shred.Drv.Pool
